@@ -5,9 +5,19 @@ import Upa.Props.C03
   C03 — the setters conform to the URL Standard's API setters.
 
   Part 1: every state-override entry point of `Impl.urlParse` against `Spec.basicParse` with that state
-  override, as the FULL pair (result, URL as left behind), from the `SimAt` simulations of C01.
-  The protocol setter (scheme start state with override; the Standard parses `value ++ ":"`, the code
-  takes the end of the input for the colon) is proved here directly (`sim_scheme_ov`).
+  override, as the FULL pair (result, URL as left behind), from the `SimAt` simulations of C01
+  (`entry_host`, `entry_hostname`, `entry_port`, `entry_pathStart`, `entry_query(_reset)`,
+  `entry_fragment(_reset)`).  The protocol setter (scheme start state with override; the Standard parses
+  `value ++ ":"`, the code takes the end of the input for the colon) is proved here directly:
+  `basicParse_scheme_spec` (the machine, any record), `urlParse_scheme_impl` (the code, any record), both in
+  the common shape `schemeOv`, and `sim_scheme_ov` (they agree under `RecOk`).
+
+  `RecOk u`: a `file` URL has a host, and a host whose serialization is empty is the empty host — where
+  the code's "host text empty" meets the Standard's "host null or the empty host".
+
+  Part 2: the ten setters, `set_<name>` and `setter_conforms`.
+  Histories: Upa/Proofs/SettersInv.lean (invariant), Upa/Proofs/SettersHist.lean (necessity of `RecOk`,
+  call sequences).
 -/
 namespace Upa.Proofs.C03
 open Upa.Spec (State Cfg StepResult step run)
@@ -272,11 +282,23 @@ theorem implSchemeFin_res (u : Url) (s : List Nat) (hok : RecOk u = true) :
 theorem colon_not_alpha : isAlpha 0x3A = false := by decide
 theorem colon_not_schemeChar : isSchemeChar 0x3A = false := by decide
 
-/-- the machine started in the scheme start state with that state as override, on `inp ++ ":"` -/
-theorem run_scheme_ov (idna : Idna) (A : Array Nat) (u : Url) (f1 f2 f3 : Bool) (inp : List Nat)
-    (hA : A.toList = inp ++ [0x3A]) (fuel : Nat) (hf : fuel ≥ inp.length + 2) (hok : RecOk u = true) :
+/-- shape shared by the Standard's run on `inp ++ ":"` and by the code's block on `inp`: failure unless
+    `inp` starts with a scheme that ends at the end of `inp` or at a ':'; `fin` = what happens then -/
+def schemeOv (u : Url) (fin : List Nat → Option Url × Url) : List Nat → Option Url × Url
+  | [] => (none, u)
+  | c0 :: r0 =>
+    if isAlpha c0 then
+      match r0.dropWhile isSchemeChar with
+      | [] => fin (Head.schemeOf c0 r0)
+      | c :: _ => if c = 0x3A then fin (Head.schemeOf c0 r0) else (none, u)
+    else (none, u)
+
+/-- the machine started in the scheme start state with that state as override, on `inp ++ ":"`
+    (any URL record) -/
+theorem run_scheme_spec (idna : Idna) (A : Array Nat) (u : Url) (f1 f2 f3 : Bool) (inp : List Nat)
+    (hA : A.toList = inp ++ [0x3A]) (fuel : Nat) (hf : fuel ≥ inp.length + 2) :
     run idna A none (some .schemeStart) fuel ⟨u, .schemeStart, [], f1, f2, f3, ((0 : Nat) : Int)⟩ =
-      resOf (some .schemeStart) (Impl.urlParse idna none (some .schemeStart) u inp) := by
+      schemeOv u (fun s => (some (specSchemeFin u s), specSchemeFin u s)) inp := by
   obtain ⟨f, rfl, hf'⟩ := fuel_succ (n := inp.length + 1) hf
   cases inp with
   | nil =>
@@ -289,16 +311,22 @@ theorem run_scheme_ov (idna : Idna) (A : Array Nat) (u : Url) (f1 f2 f3 : Bool) 
     have hd : A.toList.drop 0 = c0 :: (r0 ++ [0x3A]) := by simpa using hA
     obtain ⟨hc, hsz, hd1⟩ := getElem?_of_drop_cons hd
     by_cases ha : isAlpha c0 = true
-    · have hup : Impl.urlParse idna none (some .schemeStart) u (c0 :: r0) =
-          Impl.schemeState idna none (some .schemeStart) u (c0 :: r0) := by
-        simp [Impl.urlParse, ha]
-      rw [hup]
+    · simp only [schemeOv, ha, if_true]
       rw [run_continue' (j := 0 + 1) f (step_ss_alpha idna A u [] f1 f2 f3 0 c0 hc ha) (by simp) hsz]
       -- the scan
       have hsplit := (List.takeWhile_append_dropWhile (p := isSchemeChar) (l := r0)).symm
       obtain ⟨hbody, hrest⟩ := Head.split_schemeChar r0
-      generalize hb : r0.takeWhile isSchemeChar = body at hsplit hbody
-      generalize hr : r0.dropWhile isSchemeChar = rest at hsplit hrest
+      have hbuf : [] ++ [toLower c0] ++ (r0.takeWhile isSchemeChar).map toLower = Head.schemeOf c0 r0 := by
+        unfold Head.schemeOf
+        rw [← Head.map_toLower_eq (c0 :: r0.takeWhile isSchemeChar)
+          (fun c hc => by
+            rcases List.mem_cons.1 hc with rfl | hc
+            · exact Head.alpha_schemeChar _ ha
+            · exact hbody c hc)]
+        simp
+      generalize Head.schemeOf c0 r0 = sch at hbuf ⊢
+      generalize r0.takeWhile isSchemeChar = body at hsplit hbody hbuf
+      generalize r0.dropWhile isSchemeChar = rest at hsplit hrest
       have hd1' : A.toList.drop (0 + 1) = body ++ (rest ++ [0x3A]) := by
         rw [hd1, hsplit, List.append_assoc]
       have hlen : r0.length = body.length + rest.length := by rw [hsplit]; simp
@@ -307,44 +335,67 @@ theorem run_scheme_ov (idna : Idna) (A : Array Nat) (u : Url) (f1 f2 f3 : Bool) 
       rw [run_scheme_scan_ov idna A u f1 f2 f3 body (rest ++ [0x3A]) (0 + 1) _ f' hd1' hbody]
       have hd2 : A.toList.drop (0 + 1 + body.length) = rest ++ [0x3A] := by
         rw [← List.drop_drop, hd1', List.drop_left]
-      have hbuf : [] ++ [toLower c0] ++ body.map toLower = Head.schemeOf c0 r0 := by
-        unfold Head.schemeOf
-        rw [hb, ← Head.map_toLower_eq (c0 :: body)
-          (fun c hc => by
-            rcases List.mem_cons.1 hc with rfl | hc
-            · exact Head.alpha_schemeChar _ ha
-            · exact hbody c hc)]
-        simp
       rw [hbuf]
       obtain ⟨f'', rfl, _⟩ := fuel_succ (n := 0) (fuel := f') (by omega)
       cases rest with
       | nil =>
         obtain ⟨hc2, _, _⟩ := getElem?_of_drop_cons (r := []) (by simpa using hd2)
         rw [run_done f'' (step_sc_colon idna A u _ f1 f2 f3 _ hc2)]
-        rw [schemeState_ov_scheme idna u c0 r0 (by rw [hr]; simp), implSchemeFin_res u _ hok]
       | cons c t =>
         obtain ⟨hc2, _, _⟩ := getElem?_of_drop_cons (r := t ++ [0x3A]) (by simpa using hd2)
         by_cases hcol : c = 0x3A
         · subst hcol
           rw [run_done f'' (step_sc_colon idna A u _ f1 f2 f3 _ hc2)]
-          rw [schemeState_ov_scheme idna u c0 r0 (by rw [hr]; simp), implSchemeFin_res u _ hok]
+          simp
         · rw [run_failure f'' (step_sc_fail idna A u _ f1 f2 f3 _ (fun x hx => by
             rw [hc2] at hx; cases hx; exact ⟨hrest c rfl, hcol⟩))]
-          rw [schemeState_ov_fail idna u c0 r0 c t hr hcol]
-          rfl
+          simp [hcol]
     · have ha' : isAlpha c0 = false := by simpa using ha
       rw [run_failure f (step_ss_fail idna A u [] f1 f2 f3 0 (fun c h => by
         rw [hc] at h; cases h; exact ha'))]
-      simp [Impl.urlParse, ha']
+      simp [schemeOv, ha']
+
+/-- the Standard's protocol setter run, for any URL record -/
+theorem basicParse_scheme_spec (idna : Idna) (u : Url) (inp : List Nat) :
+    Spec.basicParse idna (inp ++ [0x3A]) none u (some .schemeStart) =
+      schemeOv u (fun s => (some (specSchemeFin u s), specSchemeFin u s)) inp := by
+  unfold Spec.basicParse
+  exact run_scheme_spec idna (inp ++ [0x3A]).toArray u false false false inp (by simp)
+    (4 * (inp ++ [0x3A]).length + 16) (by simp only [List.length_append, List.length_singleton]; omega)
+
+/-- the code's scheme block under the state override, for any URL record -/
+theorem urlParse_scheme_impl (idna : Idna) (u : Url) (inp : List Nat) :
+    resOf (some .schemeStart) (Impl.urlParse idna none (some .schemeStart) u inp) =
+      schemeOv u (fun s => resOf (some .schemeStart) (implSchemeFin u s)) inp := by
+  cases inp with
+  | nil => rfl
+  | cons c0 r0 =>
+    by_cases ha : isAlpha c0 = true
+    · have hup : Impl.urlParse idna none (some .schemeStart) u (c0 :: r0) =
+          Impl.schemeState idna none (some .schemeStart) u (c0 :: r0) := by
+        simp [Impl.urlParse, ha]
+      rw [hup]
+      simp only [schemeOv, ha, if_true]
+      cases hr : r0.dropWhile isSchemeChar with
+      | nil => rw [schemeState_ov_scheme idna u c0 r0 (by rw [hr]; simp)]
+      | cons c t =>
+        by_cases hcol : c = 0x3A
+        · rw [schemeState_ov_scheme idna u c0 r0 (by rw [hr]; simpa using hcol)]
+          simp [hcol]
+        · rw [schemeState_ov_fail idna u c0 r0 c t hr hcol]
+          simp [hcol]
+    · have ha' : isAlpha c0 = false := by simpa using ha
+      simp [Impl.urlParse, schemeOv, ha']
 
 /-- protocol setter: the Standard's basic URL parser on `value ++ ":"` with the scheme start state as
     state override, against the code, which accepts the end of the input in place of the colon -/
 theorem sim_scheme_ov (idna : Idna) (u : Url) (hok : RecOk u = true) (inp : List Nat) :
     Spec.basicParse idna (inp ++ [0x3A]) none u (some .schemeStart) =
       resOf (some .schemeStart) (Impl.urlParse idna none (some .schemeStart) u inp) := by
-  unfold Spec.basicParse
-  exact run_scheme_ov idna (inp ++ [0x3A]).toArray u false false false inp (by simp)
-    (4 * (inp ++ [0x3A]).length + 16) (by simp only [List.length_append, List.length_singleton]; omega) hok
+  rw [basicParse_scheme_spec, urlParse_scheme_impl]
+  congr 1
+  funext s
+  exact (implSchemeFin_res u s hok).symm
 
 /-! ## Part 2: the ten setters -/
 
